@@ -33,13 +33,13 @@ ASSUMPTIONS = [
 ]
 BOUND = {
     "quick": "part A: every catalog trigger x 7 layouts x its command; part B: 9 constructs x 4 languages where applicable x {0..3 lines above} x {module, function, class, nested} x {plain, decorated, multi-line}",
-    "thorough": "same with all pairs of layout values in part A",
+    "thorough": "part A with all pairs (lines above) x (no trailing newline | CRLF) and CRLF without trailing newline; part B with {0,1,2,3,5,8} lines above",
 }
-MIN_NONTRIVIAL = {"quick": 250, "thorough": 400}
+MIN_NONTRIVIAL = {"quick": 250, "thorough": 600}
 QUOTE = re.compile(r"'([^']+)'")
 
 
-def _layouts(text: str, lang: str):
+def _layouts(text: str, lang: str, pairs: bool = False):
     cm = "#" if lang == "python" else "//"
     out = [("plain", text, 0)]
     for k in (1, 2, 3):
@@ -47,6 +47,11 @@ def _layouts(text: str, lang: str):
     out.append(("comments-above", f"{cm} first remark\n{cm} second remark\n" + text, 2))
     out.append(("no-trailing-newline", text.rstrip("\n"), 0))
     out.append(("crlf", text.replace("\n", "\r\n"), 0))
+    if pairs:
+        for name_a, text_a, k in list(out[1:5]):
+            out.append((name_a + "+no-trailing-newline", text_a.rstrip("\n"), k))
+            out.append((name_a + "+crlf", text_a.replace("\n", "\r\n"), k))
+        out.append(("crlf+no-trailing-newline", text.rstrip("\n").replace("\n", "\r\n"), 0))
     return out
 
 
@@ -146,10 +151,10 @@ def items(tier: str, seed: int):
     out = []
     trig = [(n, lg) for (n, lg, _f, _c) in load.all_triggers()]
     for block in chunks(trig, 3):
-        out.append({"kind": "generic", "triggers": block})
+        out.append({"kind": "generic", "triggers": block, "pairs": tier == "thorough"})
     cons = _constructs()
     for block in chunks(list(range(len(cons))), 6):
-        out.append({"kind": "construct", "idx": block})
+        out.append({"kind": "construct", "idx": block, "deep": tier == "thorough"})
     out.append({"kind": "dry"})
     return out
 
@@ -177,7 +182,7 @@ def run_item(item) -> Acc:
             fs0 = load.trigger_files(name, lang)
             cfg = load.trigger_config(name, lang)
             target = sorted(fs0)[0]
-            for lname, text, _shift in _layouts(fs0[target], lang):
+            for lname, text, _shift in _layouts(fs0[target], lang, item.get("pairs", False)):
                 if name in ("file-header", "lazy-ignores") and "above" in lname:
                     continue
                 files = dict(fs0)
@@ -198,7 +203,7 @@ def run_item(item) -> Acc:
         cons = _constructs()
         for i in item["idx"]:
             cmd, ext, cfg, cname, lines, token = cons[i]
-            for above in (0, 1, 3):
+            for above in ((0, 1, 3) if not item.get("deep") else (0, 1, 2, 3, 5, 8)):
                 src, want, also = [], None, set()
                 src += [""] * above
                 for ln in lines:
